@@ -2354,6 +2354,28 @@ handle_line:
 
 				// Change to plain line
 				if (l->child) {
+					// If that child is a heading or table found when the contents of
+					// the would-be definition were parsed, it has been registered
+					// with the engine -- and is about to be stripped and freed
+					// like any other line
+					for (size_t i = 0; i < e->header_stack->size; ++i) {
+						if (e->header_stack->element[i] == l->child) {
+							memmove(&(e->header_stack->element[i]), &(e->header_stack->element[i + 1]),
+									(e->header_stack->size - i - 1) * sizeof(void *));
+							e->header_stack->size--;
+							break;
+						}
+					}
+
+					for (size_t i = 0; i < e->table_stack->size; ++i) {
+						if (e->table_stack->element[i] == l->child) {
+							memmove(&(e->table_stack->element[i]), &(e->table_stack->element[i + 1]),
+									(e->table_stack->size - i - 1) * sizeof(void *));
+							e->table_stack->size--;
+							break;
+						}
+					}
+
 					l->child->type = LINE_PLAIN;
 				}
 
